@@ -99,6 +99,18 @@ func (c *Ctx) flushUnmodified(rule string) {
 		r.Check(ok, rule, name, "WriteState("+rw+")", posf(c, call), "queue field "+evs+" handed to its own store unmodified", sprintf("WriteState on %s receives state %q and events %q: the queued events are not handed over as queued (copied, reordered, filtered) or cross families", rw, st, evs))
 	}
 	r.Check(n == 2, rule, name, "two WriteState calls", c.P.Pos(fn.Pos()), "one per store", sprintf("expected 2 WriteState calls, found %d", n))
+	// a store that could not write makes the flush fail: the caller then panics
+	// (WriteHeader) or reports the error (Write) instead of sending a response
+	// that pretends the state was changed
+	for _, call := range CallsTo(fn, "(ab.ClientStateReadWriter).WriteState") {
+		k, _ := c.errHandling(call)
+		ok := k == "returned"
+		why := "error is " + k
+		if k == "tested" {
+			ok, why = c.errPropagated(call)
+		}
+		r.Check(ok, rule, name, "WriteState.err", posf(c, call), "handed back to Write/WriteHeader", "the store's write error is not handed back ("+why+"): the response goes out as if the session/cookie changes had been applied (after a logout: the remember cookie or the session survives)")
+	}
 	// no store to the queue fields outside setState
 	for _, f := range c.P.Funcs {
 		for _, b := range f.Blocks {
@@ -446,6 +458,11 @@ func (c *Ctx) logoutHooks(rule string) {
 							bad, at = "the error of "+Callee(call)+" (ErrUserNotFound when nobody is logged in) is returned", posf(c, ret)
 						}
 					}
+				}
+			}
+			for _, op := range c.StateOps(h) {
+				if op.Op == "put" {
+					r.Bad(rule, hn, phase+"(EventLogout) handler writes "+op.String(), posf(c, op.Call), "a handler the library registers on "+phase+"(EventLogout) writes client state: after the delete-all was queued this value is put back and survives the logout")
 				}
 			}
 			r.Check(bad == "", rule, hn, phase+"(EventLogout) handler works without a user", at, "does not depend on a loadable current user", "a handler registered on "+phase+"(EventLogout) fails when no user can be loaded: "+bad+"; logging out of a pending-2FA, OAuth2-in-progress or expired session then ends in an error instead of the logout response")
